@@ -20,6 +20,16 @@ def dropStr (n : Nat) (s : String) : String := String.ofList (s.toList.drop n)
 def kv (key : String) (s : String) : Option String :=
   if s.startsWith (key ++ "=") then some (dropStr (key.length + 1) s) else none
 
+/-- operation as written in a request: `k<s>` = `compact(s, 0)`, which the model runs as `flush s ; compactOnly s` -/
+inductive WOp where
+  | plain (o : Op)
+  | compact (s : Nat)
+  deriving Repr, DecidableEq, Inhabited
+
+def WOp.expand : WOp → List Op
+  | .plain o => [o]
+  | .compact s => expandCompact s
+
 def parseOp (s : String) : Option Op :=
   match s.toList with
   | 'f' :: r => (String.ofList r).toNat?.map Op.flush
@@ -31,10 +41,15 @@ def parseOp (s : String) : Option Op :=
     | [] => none
   | _ => none
 
-def parseProg (s : String) : Option (List Op) :=
-  if s == "-" then some [] else optMapM parseOp (s.splitOn ",")
+def parseWOp (s : String) : Option WOp :=
+  match s.toList with
+  | 'k' :: r => (String.ofList r).toNat?.map WOp.compact
+  | _ => (parseOp s).map WOp.plain
 
-def parseProgs (s : String) : Option (List (List Op)) := optMapM parseProg (s.splitOn "/")
+def parseProg (s : String) : Option (List WOp) :=
+  if s == "-" then some [] else optMapM parseWOp (s.splitOn ",")
+
+def parseProgs (s : String) : Option (List (List WOp)) := optMapM parseProg (s.splitOn "/")
 
 def parseSched (items : List String) : Option (List Nat) :=
   optMapM String.toNat? (items.filter (fun x => x != ";" && x != "" && x != "|"))
@@ -54,13 +69,22 @@ def ackStepsAux (t : Nat) : List State → Nat → List (Nat × Op × Bool)
 
 def ackSteps (states : List State) (t : Nat) : List (Nat × Op × Bool) := ackStepsAux t states 0
 
-def showAcks (l : List (Nat × Op × Bool)) : String :=
-  if l.isEmpty then "-" else ",".intercalate (l.map (fun (k, _, ok) => s!"{k}:{if ok then "ok" else "err"}"))
+/-- one ack per request operation: a `compact` returns when its second half does (Ok iff both halves are) -/
+def mergeAcks : List WOp → List (Nat × Op × Bool) → List (Nat × Bool)
+  | [], _ => []
+  | _, [] => []
+  | .plain _ :: ws, (k, _, ok) :: rest => (k, ok) :: mergeAcks ws rest
+  | .compact _ :: _, [_] => []
+  | .compact _ :: ws, (_, _, ok1) :: (k, _, ok2) :: rest => (k, ok1 && ok2) :: mergeAcks ws rest
+
+def showAcks (l : List (Nat × Bool)) : String :=
+  if l.isEmpty then "-" else ",".intercalate (l.map (fun (k, ok) => s!"{k}:{if ok then "ok" else "err"}"))
 
 structure Req where
   cfg : Cfg
   ns : Nat
   pre : Nat
+  wprogs : List (List WOp)
   progs : List (List Op)
   sched : List Nat
 
@@ -70,7 +94,7 @@ def parseReq (args : List String) : Option Req :=
     match (kv "B" b).bind String.toNat?, (kv "fine" f).bind String.toNat?, (kv "S" s).bind String.toNat?,
           (kv "pre" p).bind String.toNat?, (kv "T" t).bind parseProgs, parseSched items with
     | some b, some f, some s, some p, some t, some sc =>
-      some { cfg := { bufSize := b, fine := f != 0 }, ns := s, pre := p, progs := t, sched := sc }
+      some { cfg := { bufSize := b, fine := f != 0 }, ns := s, pre := p, wprogs := t, progs := t.map (fun p => p.flatMap WOp.expand), sched := sc }
     | _, _, _, _, _, _ => none
   | _ => none
 
@@ -94,7 +118,7 @@ def modelOut (r : Req) : String :=
     let full := r.sched ++ completeSched r.cfg r.fuel st
     let states := trace r.cfg r.init full
     let fin := states.getLastD r.init
-    let acks := "/".intercalate ((List.range r.progs.length).map (fun t => showAcks (ackSteps states t)))
+    let acks := "/".intercalate ((List.range r.progs.length).map (fun t => showAcks (mergeAcks (r.wprogs.getD t []) (ackSteps states t))))
     let imgs := " ".intercalate (states.map (image r.ns))
     let served := "|".intercalate ((List.range r.ns).map (fun s => ids (served fin s)))
     s!"acks={acks} c={imgs} served={served} shards={presentShards r.ns fin}"
@@ -149,12 +173,12 @@ def sortNat (l : List Nat) : List Nat := sortBy (fun a b => decide (a ≤ b)) l
 def firstLost (r : Req) (o : ImplOut) : Option (Nat × Nat) :=
   let checks : List (Nat × Nat) :=
     (List.range r.progs.length).flatMap (fun t =>
-      let prog : List Op := r.progs.getD t []
+      let prog : List WOp := r.wprogs.getD t []
       let acks := o.acks.getD t []
       let oks := o.oks.getD t []
       (List.range acks.length).flatMap (fun i =>
         match prog[i]?, acks[i]?, oks[i]? with
-        | some (Op.append s us), some j, some true =>
+        | some (WOp.plain (Op.append s us)), some j, some true =>
           (List.range o.imgs.length).flatMap (fun k =>
             if k ≥ j + 1 then us.filterMap (fun u => if ((o.imgs.getD k []).getD s []).contains u then none else some (u, k)) else [])
         | _, _, _ => []))
@@ -162,11 +186,39 @@ def firstLost (r : Req) (o : ImplOut) : Option (Nat × Nat) :=
 
 def expectedServed (r : Req) (o : ImplOut) (s : Nat) : List Nat :=
   sortNat ((List.range r.progs.length).flatMap (fun t =>
-    let prog : List Op := r.progs.getD t []
+    let prog : List WOp := r.wprogs.getD t []
     let oks := o.oks.getD t []
     (List.range prog.length).flatMap (fun i => match prog[i]?, oks[i]? with
-      | some (Op.append s' us), some true => if s' = s then us else []
+      | some (WOp.plain (Op.append s' us)), some true => if s' = s then us else []
       | _, _ => [])))
+
+/-- every update any program appends to shard `s` -/
+def allUpdates (r : Req) (s : Nat) : List Nat :=
+  r.wprogs.flatMap (fun p => p.flatMap (fun w => match w with
+    | WOp.plain (Op.append s' us) => if s' = s then us else []
+    | _ => []))
+
+def firstDup : List Nat → Option Nat
+  | [] => none
+  | a :: l => if l.contains a then some a else firstDup l
+
+/-- exactly-once: what a restart serves holds no update twice (a doubled insert survives a later acknowledged
+    delete of the tuple: the deleted fact is back after the next restart) and nothing that was never appended.
+    Judged at every image of a run whose flushes are atomic (`fine=0`) and at the final image of every run (an
+    image taken *inside* a flush, between the metadata save and the WAL rewrite, legitimately shows the flushed
+    updates twice — crash consistency of a single flush is C13's subject). -/
+def firstExtra (r : Req) (o : ImplOut) : Option String :=
+  let n := o.imgs.length
+  let ks := if r.cfg.fine then (if n = 0 then [] else [n - 1]) else List.range n
+  (ks.filterMap (fun k => ((List.range r.ns).filterMap (fun s =>
+    let rec_ := (o.imgs.getD k []).getD s []
+    match firstDup rec_ with
+    | some u =>
+      let gone := (allUpdates r s).contains (1000 + tupleOf u)
+      some s!"update-{u}-of-shard-{s}-served-twice-after-restart-from-image-{k}{if gone then "-an-acknowledged-delete-of-its-tuple-would-leave-it-present" else ""}"
+    | none => match rec_.find? (fun u => !(allUpdates r s).contains u) with
+      | some u => some s!"unknown-update-{u}-of-shard-{s}-served-after-restart-from-image-{k}"
+      | none => none)).head?)).head?
 
 def cls (r : Req) : String :=
   match r.full with
@@ -183,7 +235,10 @@ def specOf (r : Req) (impl : String) : String :=
     | none =>
       match (List.range r.ns).find? (fun s => sortNat (o.served.getD s []) != expectedServed r o s) with
       | some s => specFail (cls r) s!"served-state-of-shard-{s}-is-not-the-set-of-acked-appends"
-      | none => specOk
+      | none =>
+        match firstExtra r o with
+        | some d => specFail (cls r) d
+        | none => specOk
 
 /-- non-trivial: some operation of one thread is interrupted by a step of another thread -/
 def interrupted (cfg : Cfg) : State → List Nat → Option Nat → Bool
